@@ -132,6 +132,61 @@ fn check_symbols(doc: &Doc, v: &Value, parent: Option<R>, errs: &mut Vec<String>
     }
 }
 
+/// document symbols flattened in preorder: (range, selectionRange, index of the parent symbol)
+fn flatten_symbols(v: &Value, parent: Option<usize>, out: &mut Vec<(R, R, Option<usize>)>) {
+    if let Some(a) = v.as_array() {
+        for s in a {
+            let (Some(r), Some(sel)) = (s.get("range").and_then(range), s.get("selectionRange").and_then(range)) else { continue };
+            let idx = out.len();
+            out.push((r, sel, parent));
+            if let Some(ch) = s.get("children") {
+                flatten_symbols(ch, Some(idx), out);
+            }
+        }
+    }
+}
+
+/// the real syntax tree as a `RangeTree`: nodes in preorder with the index of their parent; plus every node/token boundary
+fn range_tree(text: &str) -> (Vec<(usize, usize, Option<usize>)>, std::collections::HashSet<usize>) {
+    let tree = LuaParser::parse(text, ParserConfig::default());
+    let mut nodes: Vec<(usize, usize, Option<usize>)> = vec![];
+    let mut stack: Vec<usize> = vec![];
+    let mut bounds = std::collections::HashSet::new();
+    for ev in tree.get_red_root().preorder_with_tokens() {
+        match ev {
+            WalkEvent::Enter(NodeOrToken::Node(n)) => {
+                let (s, e) = (u32::from(n.text_range().start()) as usize, u32::from(n.text_range().end()) as usize);
+                bounds.insert(s);
+                bounds.insert(e);
+                nodes.push((s, e, stack.last().copied()));
+                stack.push(nodes.len() - 1);
+            }
+            WalkEvent::Leave(NodeOrToken::Node(_)) => {
+                stack.pop();
+            }
+            WalkEvent::Enter(NodeOrToken::Token(t)) => {
+                bounds.insert(u32::from(t.text_range().start()) as usize);
+                bounds.insert(u32::from(t.text_range().end()) as usize);
+            }
+            _ => {}
+        }
+    }
+    (nodes, bounds)
+}
+
+/// byte offset of an LSP position, by the harness' own line table
+fn offset_of(doc: &Doc, p: P) -> Option<usize> {
+    let (s, e, _) = *doc.lines.get(p.0 as usize)?;
+    let mut col = 0u64;
+    for (i, c) in doc.text[s..e].char_indices() {
+        if col == p.1 {
+            return Some(s + i);
+        }
+        col += c.len_utf16() as u64;
+    }
+    if col == p.1 { Some(e) } else { None }
+}
+
 fn chain(v: &Value) -> Vec<R> {
     let mut out = vec![];
     let mut cur = Some(v);
@@ -231,13 +286,6 @@ fn generic_ranges(cx: &mut Ctx, doc: &Doc, method: &str, params: &Value, v: &Val
             // that return a whole-document range and by exactly that end position
             let whole_doc = matches!(method, "textDocument/formatting" | "textDocument/rangeFormatting" | "textDocument/definition"
                 | "textDocument/prepareCallHierarchy" | "callHierarchy/incomingCalls" | "callHierarchy/outgoingCalls");
-            // known finding: the lexer pairs "\n\r" into one line break while the line index pairs "\r\n"; a token
-            // boundary then falls between the `\r` and `\n` of one terminator and converts to a column past the line's text
-            let inside_term = |p: P| (p.0 as usize) < doc.lines.len() && p.1 as usize == doc.lines[p.0 as usize].2 + 1;
-            if doc.text.contains("\n\r") && (inside_term(r.0) || inside_term(r.1)) && r.0 <= r.1 {
-                cx.fail(format!("{method}: result{path}: {e}"), doc.text, method, params, Some("text-contains-lf-cr-sequence"));
-                return;
-            }
             let class = if whole_doc && r.0 == (0, 0) && r.1.0 as usize == doc.lines.len() && r.1.1 == 0 { Some("whole-document-range-ends-at-line-count") } else { None };
             cx.fail(format!("{method}: result{path}: {e}"), doc.text, method, params, class);
             return;
@@ -443,6 +491,44 @@ pub fn run(args: &Args, report: &mut Report) {
         let td = json!({"uri": uri});
         let before = cx.report.oracle_failures.len();
 
+        // root cause of the former finding `text-contains-lf-cr-sequence`: no token may start or end between the
+        // `\r` and `\n` of one line terminator (LSP positions cannot denote that point)
+        {
+            let (offs, _) = docs::token_offsets(&text);
+            let b = text.as_bytes();
+            if let Some(o) = offs.iter().find(|o| **o > 0 && **o < b.len() && b[**o - 1] == b'\r' && b[**o] == b'\n' && text.is_char_boundary(**o)) {
+                // mid-token sample points are not boundaries: check real token starts only
+                let tree = LuaParser::parse(&text, ParserConfig::default());
+                let is_start = tree.get_red_root().preorder_with_tokens().any(|ev| matches!(ev, WalkEvent::Enter(NodeOrToken::Token(t)) if u32::from(t.text_range().start()) as usize == *o));
+                if is_start {
+                    cx.fail(format!("lexer: a token boundary at byte {o} lies between the \\r and \\n of a line terminator"), &text, "parse", &Value::Null, None);
+                }
+            }
+            cx.report.evaluations += 1;
+        }
+        // obligation on rowan that the RangeTree theorems assume: the real tree is well nested (model validator)
+        {
+            let (nodes, _) = range_tree(&text);
+            cx.report.add("tree_nodes", nodes.len() as u64);
+            if !nodes.is_empty() && nodes.len() <= 1500 {
+                let arg = nodes.iter().map(|(a, b, p)| format!("{a}:{b}:{}", p.map(|j| j.to_string()).unwrap_or_else(|| "x".into()))).collect::<Vec<_>>().join(";");
+                cx.tie(format!("lspshape.tree {arg}"), "ok wellNested=true".to_string(), json!({"text": text, "what": "syntax tree as RangeTree"}));
+            }
+            // `lineOf` of the model vs `LineIndex::get_line` on the implementation's own line starts
+            let li = emmylua_parser::LineIndex::parse(&text);
+            let starts: Vec<usize> = (0..li.line_count()).filter_map(|l| li.get_line_offset(l)).map(|o| u32::from(o) as usize).collect();
+            let mut offs: Vec<usize> = (0..=text.len()).filter(|o| text.is_char_boundary(*o)).collect();
+            while offs.len() > 40 {
+                let i = rng.below(offs.len());
+                offs.swap_remove(i);
+            }
+            offs.sort();
+            let got: Vec<String> = offs.iter().map(|o| li.get_line(rowan::TextSize::new(*o as u32)).map(|l| l.to_string()).unwrap_or_else(|| "none".into())).collect();
+            if !starts.is_empty() && !offs.is_empty() {
+                cx.tie(format!("lspshape.lines {} {}", starts.iter().map(|x| x.to_string()).collect::<Vec<_>>().join(":"), offs.iter().map(|x| x.to_string()).collect::<Vec<_>>().join(":")),
+                    format!("ok {}", got.join(":")), json!({"text": text, "what": "lineOf vs LineIndex::get_line"}));
+            }
+        }
         semantic_tokens(&mut cx, &mut s, &doc, false, legend);
         semantic_tokens(&mut cx, &mut s_ml, &doc, true, legend);
 
@@ -472,6 +558,13 @@ pub fn run(args: &Args, report: &mut Report) {
                                 break;
                             }
                         }
+                        let fs: Vec<(u64, u64)> = a.iter().map(|f| (f["startLine"].as_u64().unwrap_or(0), f["endLine"].as_u64().unwrap_or(0))).collect();
+                        cx.report.add("folds_checked", fs.len() as u64);
+                        let own_ok = fs.iter().all(|f| f.0 <= f.1 && (f.1 as usize) < doc.lines.len());
+                        if fs.len() <= 400 {
+                            let arg = if fs.is_empty() { "-".to_string() } else { fs.iter().map(|f| format!("{}:{}", f.0, f.1)).collect::<Vec<_>>().join(";") };
+                            cx.tie(format!("lspshape.folds {} {arg}", doc.lines.len()), format!("ok valid={own_ok}"), json!({"text": text, "method": method}));
+                        }
                     }
                 }
                 "textDocument/documentSymbol" => {
@@ -479,6 +572,37 @@ pub fn run(args: &Args, report: &mut Report) {
                     check_symbols(&doc, &v, None, &mut errs);
                     if let Some(e) = errs.first() {
                         cx.fail(format!("{method}: {e}"), &text, method, &params, None);
+                    }
+                    // tie: the model's validator on the flattened result must agree with the harness' own
+                    let mut flat = vec![];
+                    flatten_symbols(&v, None, &mut flat);
+                    cx.report.add("symbols_checked", flat.len() as u64);
+                    let own_ok = flat.iter().enumerate().all(|(i, (r, sel, p))| {
+                        r.0 <= r.1 && contains(*r, *sel) && p.map(|j| j < i && contains(flat[j].0, *r)).unwrap_or(true)
+                    });
+                    if own_ok != errs.is_empty() {
+                        cx.report.count("symbol_validators_disagree");
+                    }
+                    if flat.len() <= 400 {
+                        let arg = if flat.is_empty() { "-".to_string() } else {
+                            flat.iter().map(|(r, sel, p)| format!("{}:{}:{}:{}:{}:{}:{}:{}:{}", r.0.0, r.0.1, r.1.0, r.1.1, sel.0.0, sel.0.1, sel.1.0, sel.1.1,
+                                p.map(|j| j.to_string()).unwrap_or_else(|| "x".into()))).collect::<Vec<_>>().join(";")
+                        };
+                        cx.tie(format!("lspshape.symbols {arg}"), format!("ok valid={own_ok}"), json!({"text": text, "method": method}));
+                    }
+                    // producer discipline assumed by `C26_symbol_nesting`: a symbol's range and selection range start and end
+                    // at node/token boundaries of the syntax tree (they are node ranges or covers of node ranges)
+                    let (_, bounds) = range_tree(&text);
+                    for (r, sel, _) in &flat {
+                        for p in [r.0, r.1, sel.0, sel.1] {
+                            match offset_of(&doc, p) {
+                                Some(o) if bounds.contains(&o) => {}
+                                _ => {
+                                    cx.fail(format!("{method}: symbol position {p:?} is not a node/token boundary of the syntax tree"), &text, method, &params, None);
+                                    break;
+                                }
+                            }
+                        }
                     }
                     generic_ranges(&mut cx, &doc, method, &params, &v);
                 }
